@@ -200,6 +200,15 @@ theorem runA9 : c6.2.1.arrSet X 0 (pl 9) c6.2.2 = .ok c9 := by
   rw [arrSet_eq_S]; exact eq_okE _ (by decide)
 theorem runA10 : c6.2.1.setType X 5 c6.2.2 = .ok c10 := eq_okW _ (by decide)
 
+/-- the detached `X` ATTACHED TO ANOTHER PARENT: inserted into `Y` (itself inlined in `R`) -/
+def c11 : World × Ctx := okW (c6.2.1.arrInsertS Y 0 (.child X 0) c6.2.2)
+
+theorem runA11 : c6.2.1.arrInsert Y 0 (.child X 0) c6.2.2 = .ok c11 := by
+  rw [arrInsert_eq_S]; exact eq_okW _ (by decide)
+
+/-- `X` holds plain values only: it is nobody's ancestor but its own -/
+theorem not_anc_X_Y : ¬ Anc c6.2.1 X Y := Atree.OkScenario.not_anc_of_plain (by decide) (by decide)
+
 /-! ### Run C: a detached MAP root
 
 Root array `R`; map `M` inserted in slot 0 and given one entry through its handle (INLINED in `R`);
